@@ -72,7 +72,7 @@ func init() {
 		},
 		"(reflect.Value).String": func(x *Exec, fr *Frame, st *State, a []Value) Value {
 			v := asTerm(a[0])
-			return x.tt.Ite(x.tt.Is("vstr", v), x.tt.Sel("v-s", "vstr", "String", v), x.tt.UF("reflString$", "String", v))
+			return x.tt.Ite(x.tt.Is("vstr", v), x.tt.Sel("v-s", "vstr", x.SS(), v), x.tt.UF("reflString$", x.SS(), v))
 		},
 		"reflect.Indirect": func(x *Exec, fr *Frame, st *State, a []Value) Value {
 			v := asTerm(a[0])
@@ -104,7 +104,7 @@ func init() {
 		s := asTerm(a[0])
 		tt := x.tt
 		n := tt.UF("runeCount$", "Int", s)
-		x.addFact(tt.And(tt.Ge(n, tt.IntLit(0)), tt.Le(n, tt.App("str.len", "Int", s))))
+		x.addFact(tt.And(tt.Ge(n, tt.IntLit(0)), tt.Le(n, x.toMathInt(x.strLen(s)))))
 		x.addFact(tt.Eq(tt.Eq(n, tt.IntLit(0)), tt.Eq(s, x.StrLit(""))))
 		if x.bv {
 			return tt.App("(_ int2bv 64)", bvSort(64), n)
@@ -114,7 +114,7 @@ func init() {
 	models["fmt.Sprintf"] = func(x *Exec, fr *Frame, st *State, a []Value) Value {
 		f := asTerm(a[0])
 		args := asTerm(a[1])
-		return x.tt.UF("sprintf$", "String", f, x.sArr(args), x.tt.Select(x.heap(st, "A$interface{}", arraySort("Int", arraySort("Int", "Val"))), x.sArr(args)))
+		return x.tt.UF("sprintf$", x.SS(), f, x.sArr(args), x.tt.Select(x.heap(st, "A$interface{}", arraySort("Int", arraySort("Int", "Val"))), x.sArr(args)))
 	}
 	models["fmt.Errorf"] = func(x *Exec, fr *Frame, st *State, a []Value) Value {
 		r := x.tt.Fresh("errorf", "Val")
@@ -123,13 +123,13 @@ func init() {
 		return r
 	}
 	models["strings.HasPrefix"] = func(x *Exec, fr *Frame, st *State, a []Value) Value {
-		return x.tt.App("str.prefixof", "Bool", asTerm(a[1]), asTerm(a[0]))
+		return x.strOp("str.prefixof", "Bool", asTerm(a[1]), asTerm(a[0]))
 	}
 	models["strings.HasSuffix"] = func(x *Exec, fr *Frame, st *State, a []Value) Value {
-		return x.tt.App("str.suffixof", "Bool", asTerm(a[1]), asTerm(a[0]))
+		return x.strOp("str.suffixof", "Bool", asTerm(a[1]), asTerm(a[0]))
 	}
 	models["strings.Contains"] = func(x *Exec, fr *Frame, st *State, a []Value) Value {
-		return x.tt.App("str.contains", "Bool", asTerm(a[0]), asTerm(a[1]))
+		return x.strOp("str.contains", "Bool", asTerm(a[0]), asTerm(a[1]))
 	}
 	models["strings.EqualFold"] = func(x *Exec, fr *Frame, st *State, a []Value) Value {
 		s, t := asTerm(a[0]), asTerm(a[1])
@@ -143,11 +143,11 @@ func init() {
 	models["strings.TrimPrefix"] = func(x *Exec, fr *Frame, st *State, a []Value) Value {
 		s, p := asTerm(a[0]), asTerm(a[1])
 		tt := x.tt
-		if x.bv {
-			return tt.UF("trimPrefix$", "String", s, p)
+		if x.bv || !x.strTheory {
+			return tt.UF("trimPrefix$", x.SS(), s, p)
 		}
 		lp := tt.App("str.len", "Int", p)
-		return tt.Ite(tt.App("str.prefixof", "Bool", p, s), tt.App("str.substr", "String", s, lp, tt.Sub(tt.App("str.len", "Int", s), lp)), s)
+		return tt.Ite(tt.App("str.prefixof", "Bool", p, s), tt.App("str.substr", x.SS(), s, lp, tt.Sub(tt.App("str.len", "Int", s), lp)), s)
 	}
 	models["strings.Split"] = func(x *Exec, fr *Frame, st *State, a []Value) Value {
 		// returns a fresh non-empty slice (sep != "" gives at least one element)
@@ -160,8 +160,8 @@ func init() {
 	}
 	models["strings.Join"] = func(x *Exec, fr *Frame, st *State, a []Value) Value {
 		sl := asTerm(a[0])
-		h := x.heap(st, "A$string", arraySort("Int", arraySort("Int", "String")))
-		return x.tt.UF("join$", "String", x.tt.Select(h, x.sArr(sl)), x.toMathInt(x.sLen(sl)), asTerm(a[1]))
+		h := x.heap(st, "A$string", arraySort("Int", arraySort("Int", x.SS())))
+		return x.tt.UF("join$", x.SS(), x.tt.Select(h, x.sArr(sl)), x.toMathInt(x.sLen(sl)), asTerm(a[1]))
 	}
 	models["errors.New"] = func(x *Exec, fr *Frame, st *State, a []Value) Value {
 		r := x.tt.Fresh("errnew", "Val")
@@ -170,7 +170,7 @@ func init() {
 		return r
 	}
 	models["strconv.Itoa"] = func(x *Exec, fr *Frame, st *State, a []Value) Value {
-		return x.tt.UF("itoa$", "String", x.toMathInt(asTerm(a[0])))
+		return x.tt.UF("itoa$", x.SS(), x.toMathInt(asTerm(a[0])))
 	}
 }
 
@@ -218,7 +218,7 @@ func (x *Exec) reflLen(v *Term) *Term {
 		x.addFactRaw(x.iLe(other, x.GoInt(1<<40)))
 	}
 	return tt.Ite(tt.Is("vslice", v), x.sLen(tt.Sel("v-l", "vslice", "Slice", v)),
-		tt.Ite(tt.Is("vstr", v), x.strLen(tt.Sel("v-s", "vstr", "String", v)), other))
+		tt.Ite(tt.Is("vstr", v), x.strLen(tt.Sel("v-s", "vstr", x.SS(), v)), other))
 }
 
 // reflIndex: element i of a slice value, boxed.
@@ -234,7 +234,7 @@ func (x *Exec) reflIndex(st *State, v, i *Term) *Term {
 	return tt.Ite(tt.And(tt.Is("vslice", v), tt.Eq(x.tagOf(v), x.tidLit(anyT))), elem, gen)
 }
 
-func (x *Exec) errMsg(v *Term) *Term { return x.tt.UF("errMsg$", "String", v) }
+func (x *Exec) errMsg(v *Term) *Term { return x.tt.UF("errMsg$", x.SS(), v) }
 
 // deepEqual: partial axiomatisation.
 func (x *Exec) deepEqual(st *State, a, b *Term) *Term {
@@ -271,7 +271,7 @@ func (x *Exec) doInvoke(fr *Frame, st *State, recv *Term, recvT types.Type, m *t
 		case "ConvertibleTo":
 			return tt.UF("convertible$", "Bool", recv, asTerm(args[0]))
 		case "String", "Name":
-			return tt.UF("typeName$", "String", recv)
+			return tt.UF("typeName$", x.SS(), recv)
 		}
 		x.note("reflect.Type." + name + " (havocked)")
 		return x.freshResults("rt."+name, sig.Results())
